@@ -1,4 +1,5 @@
 import HypnoModel.Model.Profiles
+import HypnoModel.Gen.Geom1
 import HypnoModel.Drv.Util
 /- driver ops for C03:  c03s <dot> <bpsign> → ok ±1 | raise ;  c03r <leg> <sign> <psi> → reflected psi (hex) -/
 namespace Drv.C03
@@ -12,6 +13,12 @@ def opS (a : List String) : String :=
 def opR (a : List String) : String :=
   match a.map floatOfHex with
   | [l, s, p] => hexOfFloat (reflect Float.abs l s p)
+  | _ => "bad-op"
+
+/-- c03g Br Bz Bp Bt → |Bp| from (Br, Bz) and |B| from (Bp, Bt), by the generated geometry1 formulas over Float -/
+def opG (a : List String) : String :=
+  match a.map floatOfHex with
+  | [br, bz, bp, bt] => hexOfFloat (Gen.F.Geom1.Bpxy br bz) ++ " " ++ hexOfFloat (Gen.F.Geom1.Bxy bp bt)
   | _ => "bad-op"
 
 end Drv.C03
